@@ -36,6 +36,55 @@ theorem c16_core_total (env : Env) (c : Cluster) : ∃ errs, validateUpstreamClu
   | ok l => exact ⟨l, rfl⟩
   | error x => simp [h, bind, Except.bind] at he
 
+/-! ## Updates are validated like creates -/
+
+/-- `Validate` does not read the operation or the old object: whatever an update changes (spec, annotations, labels,
+    nothing), the new object goes through the whole validation -/
+theorem c16_validate_independent_of_old (env : Env) (known : List Known) (op op' : Operation) (old old' : Option Cluster)
+    (c : Cluster) : validateAdmission env known op old c = validateAdmission env known op' old' c := rfl
+
+theorem c16_admission_accepts_iff_valid (env : Env) (known : List Known) (op : Operation) (old : Option Cluster)
+    (c : Cluster) : validateAdmission env known op old c = .ok [] ↔ valid env known c = true :=
+  validate_ok_iff_valid env known c
+
+/-- in particular an update that leaves the spec untouched and writes an unparsable feature-gate annotation is
+    rejected -/
+theorem c16_rejects_bad_feature_gate_on_update (env : Env) (known : List Known) (old c : Cluster)
+    (m : List (Str × Str)) (ha : c.annotations = some m) (hne : mapGet m sFeatureGateKey ≠ [])
+    (hbad : env.featureGateSet (mapGet m sFeatureGateKey) = none) :
+    validateAdmission env known .update (some old) c ≠ .ok [] := by
+  intro h
+  have hv := (c16_admission_accepts_iff_valid env known .update (some old) c).mp h
+  simp only [valid, Bool.and_eq_true] at hv
+  have hg := hv.1.2
+  simp [featureGateOK, ha, hne, hbad] at hg
+
+/-- `Admit`'s defaulting is idempotent -/
+theorem c16_admit_idempotent (c : Cluster) : admit (admit c) = admit c := by
+  unfold admit
+  simp only [List.map_map]
+  congr 1
+  apply List.map_congr_left
+  intro p _
+  by_cases h : p.strategy = [] <;> simp [h]
+
+/-- ... and changes nothing in an object that is valid as submitted -/
+theorem c16_admit_valid_unchanged (env : Env) (known : List Known) (c : Cluster) (h : valid env known c = true) :
+    admit c = c := by
+  simp only [valid, formOK, Bool.and_eq_true, decide_eq_true_eq, List.all_eq_true] at h
+  have hp := h.1.1.2.2
+  unfold admit
+  have : c.policies.map (fun p => if p.strategy = [] then { p with strategy := sRoundRobin } else p) = c.policies := by
+    conv => rhs; rw [← List.map_id c.policies]
+    apply List.map_congr_left
+    intro p hpm
+    have hs := (hp p hpm).1.1
+    by_cases he : p.strategy = []
+    · simp only [he, if_true, id]
+      cases p; simp_all
+    · simp [he]
+  rw [this]
+
 /-! ## What is accepted: exactly the declaratively valid objects -/
 
 /-- the validation accepts (empty error list) exactly the objects that are `valid` by the declarative spec -/
@@ -258,6 +307,16 @@ theorem c16_sufficient_history (env : Env) (henv : EnvOK env) (known : List Know
     ∃ ci', foldM' (fun (st : ClusterInfo) c => st.sync env c) ci cs = .ok ci' ∧ Applicable env ci' :=
   foldM'_ok _ (Applicable env) cs
     (fun st hst c hc => c16_sufficient_update env henv known c (h c hc) st hst) ci hci
+
+/-- an admitted UPDATE can be applied: the gateway holds the `ClusterInfo` it created from the old (admitted) object;
+    `Sync` of the new object, admitted as an update of it, succeeds — whatever the two objects differ in -/
+theorem c16_sufficient_update_admission (env : Env) (henv : EnvOK env) (known known' : List Known) (old c : Cluster)
+    (hold : validateAdmission env known' .create none old = .ok [])
+    (h : validateAdmission env known .update (some old) c = .ok []) (remote : Bool) :
+    ∃ ci, createClusterInfo env remote old = .ok ci ∧ ∃ ci', ci.sync env c = .ok ci' := by
+  obtain ⟨ci, hci, happ⟩ := c16_created_applicable env henv known' old hold remote
+  obtain ⟨ci', hs, _⟩ := c16_sufficient_update env henv known c h ci happ
+  exact ⟨ci, hci, ci', hs⟩
 
 /-- the controller's queue handler bootstraps an accepted object: no panic, no requeue (`Err.err`), provided the
     manager only holds names of clusters the lister (against which the object was validated) knows -/
